@@ -6,16 +6,15 @@ Local Open Scope string_scope.
 
 (* ------------------------------------------------------------------ the table *)
 
-Lemma all_sites_complete : forall i : site_id, In i all_sites.
-Proof. intros i; destruct i; vm_compute; tauto. Qed.
-
 (** no two accounted sites share an identity: a table entry speaks about one site only *)
 Fixpoint distinct_sites (l : list site) : bool :=
   match l with [] => true | s :: t => negb (existsb (site_eqb s) t) && distinct_sites t end.
 Lemma accounted_identities_distinct : distinct_sites (map fst accounted) = true.
 Proof. vm_compute. reflexivity. Qed.
 
-Lemma descr_accounted : forall i, is_accounted (descr i) = true.
+(** a site is in the table the inventory is checked against iff it is not historical: the shapes the
+    fixing commits removed are refused should they come back *)
+Lemma accounted_iff_current : forall i, is_accounted (descr i) = negb (historical i).
 Proof. intros i; destruct i; vm_compute; reflexivity. Qed.
 
 (* ------------------------------------------------------------------ helpers *)
@@ -103,12 +102,16 @@ Proof.
     apply parse_condmap_ok_iff in E as [m Hm]. congruence.
 Qed.
 
-Lemma add_objects_from_panic : forall objs idxs acc s,
+(** "repaired": the same stage with a panic turned into an error - how the present models relate to
+    the historical (_v0) ones *)
+Definition repaired {A} (x : outcome A) : outcome A := match x with Panic _ => Err | o => o end.
+
+Lemma add_objects_from_panic : forall site objs idxs acc s,
   (forall i, In i idxs -> i < List.length objs) ->
-  add_objects_from objs idxs acc = Panic s ->
-  s = S_col_panic /\ existsb (fun o => negb (condmap_ok (o_condmap o))) objs = true.
+  add_objects_from site objs idxs acc = Panic s ->
+  s = site /\ existsb (fun o => negb (condmap_ok (o_condmap o))) objs = true.
 Proof.
-  intros objs idxs. induction idxs as [|i rest IH]; intros acc s Hin H; cbn in H; [discriminate|].
+  intros site objs idxs. induction idxs as [|i rest IH]; intros acc s Hin H; cbn in H; [discriminate|].
   unfold index_or in H. destruct (nth_error objs i) as [o|] eqn:E.
   - cbn in H. destruct (parse_condmap (o_condmap o)) as [m| |s'] eqn:P.
     + apply (IH _ _ (fun j Hj => Hin j (or_intror Hj)) H).
@@ -119,75 +122,103 @@ Proof.
   - apply nth_error_None in E. specialize (Hin i (or_introl eq_refl)). lia.
 Qed.
 
+(** with well-formed annotations the collector's result does not depend on which panic site it carries *)
 Lemma add_objects_from_ok : forall objs idxs acc,
   (forall i, In i idxs -> i < List.length objs) ->
   forallb (fun o => condmap_ok (o_condmap o)) objs = true ->
-  exists l, add_objects_from objs idxs acc = Ok l.
+  exists l, forall site', add_objects_from site' objs idxs acc = Ok l.
 Proof.
   intros objs idxs. induction idxs as [|i rest IH]; intros acc Hin Hok; cbn; [now exists acc|].
   unfold index_or. destruct (nth_error objs i) as [o|] eqn:E.
-  - cbn. rewrite forallb_forall in Hok. pose proof (Hok o (nth_error_In _ _ E)) as Ho.
+  - cbn. pose proof Hok as Hok'. rewrite forallb_forall in Hok'. pose proof (Hok' o (nth_error_In _ _ E)) as Ho.
     apply parse_condmap_ok_iff in Ho as [m Hm]. rewrite Hm.
-    apply IH; [intros j Hj; apply Hin; now right|now apply forallb_forall].
+    apply IH; [intros j Hj; apply Hin; now right|assumption].
   - apply nth_error_None in E. specialize (Hin i (or_introl eq_refl)). lia.
 Qed.
 
 Lemma seq_bound n : forall i, In i (seq 0 n) -> i < n.
 Proof. intros i H. apply in_seq in H. lia. Qed.
 
-Theorem collector_total_if_validated : forall phases objs,
-  forallb (fun o => condmap_ok (o_condmap o)) objs = true -> exists n, collect phases objs = Ok n.
+Lemma collect_at_ok : forall phases objs,
+  forallb (fun o => condmap_ok (o_condmap o)) objs = true -> exists n, forall site, collect_at site phases objs = Ok n.
 Proof.
-  intros phases objs H. unfold collect, add_objects.
+  intros phases objs H. unfold collect_at, add_objects.
   destruct (add_objects_from_ok objs (seq 0 (List.length objs)) [] (seq_bound _) H) as [l Hl].
-  rewrite Hl. cbn. eauto.
+  eexists. intros site. rewrite Hl. cbn. reflexivity.
 Qed.
 
-Theorem collect_panic_only_at_AddObjects : forall phases objs s,
-  collect phases objs = Panic s ->
-  s = S_col_panic /\ existsb (fun o => negb (condmap_ok (o_condmap o))) objs = true.
+Theorem collector_total_if_validated : forall phases objs,
+  forallb (fun o => condmap_ok (o_condmap o)) objs = true -> exists n, collect phases objs = Ok n.
+Proof. intros phases objs H. destruct (collect_at_ok phases objs H) as [n Hn]. exists n. apply Hn. Qed.
+
+Lemma collect_at_panic : forall site phases objs s,
+  collect_at site phases objs = Panic s ->
+  s = site /\ existsb (fun o => negb (condmap_ok (o_condmap o))) objs = true.
 Proof.
-  intros phases objs s H. unfold collect, add_objects in H.
-  destruct (add_objects_from objs (seq 0 (List.length objs)) []) as [l| |s'] eqn:E; cbn in H; try discriminate.
-  injection H as <-. apply (add_objects_from_panic _ _ _ _ (seq_bound _) E).
+  intros site phases objs s H. unfold collect_at, add_objects in H.
+  destruct (add_objects_from site objs (seq 0 (List.length objs)) []) as [l| |s'] eqn:E; cbn in H; try discriminate.
+  injection H as <-. apply (add_objects_from_panic _ _ _ _ _ (seq_bound _) E).
+Qed.
+
+(** parseObjects lets exactly the grammar through and never panics *)
+Lemma parse_objects_spec : forall objs,
+  parse_objects objs = (if forallb (fun o => condmap_ok (o_condmap o)) objs then Ok tt else Err).
+Proof.
+  induction objs as [|o rest IH]; cbn; [reflexivity|].
+  destruct (parse_condmap (o_condmap o)) as [m| |s] eqn:P.
+  - assert (condmap_ok (o_condmap o) = true) as -> by (apply parse_condmap_ok_iff; eauto). cbn. apply IH.
+  - apply parse_condmap_err_iff in P. rewrite P. reflexivity.
+  - now apply parse_condmap_no_panic in P.
+Qed.
+
+(** C19 for the collector stage, at full strength: no object list makes the present pipeline panic. *)
+Theorem collector_total : forall phases objs s, render_and_collect phases objs <> Panic s.
+Proof.
+  intros phases objs s H. unfold render_and_collect in H. rewrite parse_objects_spec in H.
+  destruct (forallb (fun o => condmap_ok (o_condmap o)) objs) eqn:E; cbn in H; [|discriminate].
+  destruct (validators_accept phases objs); [|discriminate].
+  destruct (collector_total_if_validated phases objs E) as [n Hn]. congruence.
 Qed.
 
 Definition bytes_of (s : string) : bytes := list_ascii_of_string s.
 
-(** F-C19a: one ConfigMap-like object in phase "deploy", annotation value "garbage" *)
+(** F-C19a (fixed by 6890742): one ConfigMap-like object in phase "deploy", annotation value "garbage" *)
 Definition witness_objs : list pobj := [mkobj (Some "deploy") true true 1 (Some (bytes_of "garbage"))].
 
-Theorem collector_panics_refuted :
-  exists phases objs, validators_accept phases objs = true /\ render_and_collect phases objs = Panic S_col_panic.
+Theorem v0_collector_panics_refuted :
+  exists phases objs, validators_accept phases objs = true /\ render_and_collect_v0 phases objs = Panic S_v0_col_panic.
 Proof. exists ["deploy"], witness_objs. vm_compute. split; reflexivity. Qed.
 
-(** even the empty annotation value panics: strings.Split("", "\n") is [""] *)
-Theorem collector_panics_on_empty_value :
-  render_and_collect ["deploy"] [mkobj (Some "deploy") true true 1 (Some [])] = Panic S_col_panic.
+(** even the empty annotation value panicked: strings.Split("", "\n") is [""] *)
+Theorem v0_collector_panics_on_empty_value :
+  render_and_collect_v0 ["deploy"] [mkobj (Some "deploy") true true 1 (Some [])] = Panic S_v0_col_panic.
 Proof. vm_compute. reflexivity. Qed.
 
-Theorem collector_partial : forall phases objs s,
-  render_and_collect phases objs = Panic s ->
-  s = S_col_panic /\ existsb (fun o => negb (condmap_ok (o_condmap o))) objs = true.
+(** the present pipeline is the historical one with exactly that panic turned into a violation *)
+Theorem collector_repairs_v0 : forall phases objs,
+  render_and_collect phases objs = repaired (render_and_collect_v0 phases objs).
 Proof.
-  intros phases objs s H. unfold render_and_collect in H.
-  destruct (validators_accept phases objs); [|discriminate]. now apply collect_panic_only_at_AddObjects in H.
-Qed.
-
-Theorem collector_fixed_total : forall phases objs s, render_and_collect_fixed phases objs <> Panic s.
-Proof.
-  intros phases objs s H. unfold render_and_collect_fixed in H.
-  destruct (validators_accept phases objs); cbn in H; [|discriminate].
-  destruct (forallb (fun o => condmap_ok (o_condmap o)) objs) eqn:E; [|discriminate].
-  destruct (collector_total_if_validated phases objs E) as [n Hn]. congruence.
-Qed.
-
-(** the repaired pipeline changes nothing for packages whose annotations follow the grammar *)
-Theorem collector_fixed_agrees : forall phases objs,
-  forallb (fun o => condmap_ok (o_condmap o)) objs = true ->
-  render_and_collect_fixed phases objs = render_and_collect phases objs.
-Proof.
-  intros phases objs H. unfold render_and_collect_fixed, render_and_collect. rewrite H, andb_true_r. reflexivity.
+  intros phases objs. unfold render_and_collect, render_and_collect_v0. rewrite parse_objects_spec.
+  destruct (forallb (fun o => condmap_ok (o_condmap o)) objs) eqn:E; cbn.
+  - destruct (validators_accept phases objs); [|reflexivity].
+    destruct (collect_at_ok phases objs E) as [n Hn]. unfold collect. rewrite !Hn. reflexivity.
+  - destruct (validators_accept phases objs); [|reflexivity].
+    destruct (collect_at S_v0_col_panic phases objs) as [n| |s] eqn:C; cbn; try reflexivity.
+    exfalso. unfold collect_at, add_objects in C.
+    destruct (add_objects_from S_v0_col_panic objs (seq 0 (List.length objs)) []) as [l| |s] eqn:A; cbn in C; try discriminate.
+    clear C n.
+    assert (G : forall idxs acc l, add_objects_from S_v0_col_panic objs idxs acc = Ok l ->
+                  forall i, In i idxs -> forall o, nth_error objs i = Some o -> condmap_ok (o_condmap o) = true).
+    { induction idxs as [|j rest IH]; intros acc l' H i Hi o Ho; [contradiction|]. cbn in H.
+      unfold index_or in H. destruct (nth_error objs j) as [oj|] eqn:Ej; cbn in H; [|discriminate].
+      destruct (parse_condmap (o_condmap oj)) as [m| |] eqn:P; try discriminate.
+      destruct Hi as [->|Hi]; [|now apply (IH _ _ H i Hi o Ho)].
+      assert (oj = o) by congruence. subst. apply parse_condmap_ok_iff. eauto. }
+    assert (T : forallb (fun o => condmap_ok (o_condmap o)) objs = true).
+    { apply forallb_forall. intros o Ho. apply In_nth_error in Ho as [i Hi].
+      apply (G _ _ _ A i); [|assumption]. apply in_seq.
+      assert (i < List.length objs) by (apply nth_error_Some; congruence). lia. }
+    congruence.
 Qed.
 
 (* ------------------------------------------------------------------ (2) mapConditions *)
@@ -202,66 +233,48 @@ Qed.
 
 (* ------------------------------------------------------------------ (3) objecttemplate *)
 
-Definition ot_assert_sites : list site_id := [S_ot_cond_type; S_ot_cond_status; S_ot_cond_reason; S_ot_cond_message].
-
-Ltac assert_step kvs k :=
-  unfold assert_string at 1;
-  let E := fresh "E" in
-  destruct (jget k kvs) as [[| | | |?v| |]|] eqn:E; cbn [bind];
-  try (let H := fresh in intros H; injection H as <-; split; [cbn; tauto|];
-       unfold entry_strings; cbn [forallb];
-       repeat match goal with HE : jget _ kvs = _ |- _ => rewrite HE; clear HE end; reflexivity).
-
-Lemma copy_one_panic objgen kvs s :
-  copy_one objgen kvs = Panic s -> In s ot_assert_sites /\ entry_strings kvs = false.
+Lemma copy_one_no_panic objgen kvs s : copy_one objgen kvs <> Panic s.
 Proof.
-  unfold copy_one.
-  destruct (as_int64 (nested1 kvs "observedGeneration")) as [|z|]; try discriminate;
+  unfold copy_one. destruct (as_int64 (nested1 kvs "observedGeneration")); try discriminate;
   (match goal with |- context [if ?c then _ else _] => destruct c end; [discriminate|]);
-  assert_step kvs "type"; assert_step kvs "status"; assert_step kvs "reason"; assert_step kvs "message";
-  discriminate.
+  destruct (entry_strings kvs); discriminate.
 Qed.
 
-Lemma copy_conditions_panic : forall objgen conds acc s,
-  copy_conditions objgen conds acc = Panic s -> In s ot_assert_sites /\ forallb cond_entry_ok conds = false.
+Lemma copy_conditions_with_no_panic one :
+  (forall g kvs s, one g kvs <> Panic s) ->
+  forall objgen conds acc s, copy_conditions_with one objgen conds acc <> Panic s.
 Proof.
-  intros objgen conds. induction conds as [|c rest IH]; intros acc s H; cbn in H; [discriminate|].
-  destruct c as [| | | | |l|kvs]; try discriminate.
-  destruct (copy_one objgen kvs) as [r| |s'] eqn:E; cbn in H; try discriminate.
-  - destruct (IH _ _ H) as [H1 H2]. split; [assumption|]. cbn [forallb]. rewrite H2. apply andb_false_r.
-  - injection H as <-. destruct (copy_one_panic _ _ _ E) as [H1 H2]. split; [assumption|].
-    cbn [forallb cond_entry_ok]. now rewrite H2.
+  intros Hone objgen conds. induction conds as [|c rest IH]; intros acc s; cbn; [discriminate|].
+  destruct c; try discriminate. destruct (one objgen l) as [r| |s'] eqn:E; cbn; [apply IH|discriminate|].
+  now apply Hone in E.
 Qed.
 
-Theorem template_conditions_partial : forall gen obj s,
-  template_conditions gen obj = Panic s -> In s ot_assert_sites /\ conditions_wellformed obj = false.
+(** C19 for the condition copy of the ObjectTemplate controller, at full strength *)
+Theorem template_conditions_total : forall gen obj s, template_conditions gen obj <> Panic s.
 Proof.
-  intros gen obj s H. unfold template_conditions in H.
-  assert (G : forall b, conditions_of b obj = Panic s -> In s ot_assert_sites /\ conditions_wellformed obj = false).
-  { intros b Hb. unfold conditions_of in Hb. destruct (negb b); [discriminate|].
-    unfold conditions_wellformed. destruct (nested2 obj "status" "conditions") as [|v|]; try discriminate.
-    destruct v; try discriminate. now apply copy_conditions_panic in Hb. }
-  destruct (as_int64 (nested2 obj "status" "observedGeneration")); try discriminate; now apply G in H.
+  intros gen obj s. unfold template_conditions, template_conditions_with.
+  assert (G : forall b, conditions_of_with copy_one b obj <> Panic s).
+  { intros b. unfold conditions_of_with. destruct (negb b); [discriminate|].
+    destruct (nested2 obj "status" "conditions") as [|v|]; try discriminate.
+    destruct v; try discriminate. apply copy_conditions_with_no_panic. apply copy_one_no_panic. }
+  destruct (as_int64 (nested2 obj "status" "observedGeneration")); [apply G|apply G|discriminate].
 Qed.
 
-Theorem template_conditions_total_if_wellformed : forall gen obj,
-  conditions_wellformed obj = true -> forall s, template_conditions gen obj <> Panic s.
-Proof.
-  intros gen obj Hw s H. apply template_conditions_partial in H as [_ H]. congruence.
-Qed.
+Definition ot_assert_sites : list site_id :=
+  [S_v0_ot_cond_type; S_v0_ot_cond_status; S_v0_ot_cond_reason; S_v0_ot_cond_message].
 
-(** F-C19c: a current condition entry of the templated object without `reason` *)
+(** F-C19c (fixed by a818a7e): a current condition entry of the templated object without `reason` *)
 Definition witness_templated : list (string * json) :=
   [("metadata", JObj [("generation", JInt 1)]);
    ("status", JObj [("conditions", JArr [JObj [("type", JStr "Ready"); ("status", JStr "True");
                                                ("message", JStr "all good"); ("observedGeneration", JInt 1)]])])].
 
-Theorem template_conditions_refuted : exists gen obj, template_conditions gen obj = Panic S_ot_cond_reason.
+Theorem v0_template_conditions_refuted : exists gen obj, template_conditions_v0 gen obj = Panic S_v0_ot_cond_reason.
 Proof. exists 1%Z, witness_templated. vm_compute. reflexivity. Qed.
 
-(** every one of the four assertions can fire *)
-Theorem template_conditions_each_site_reachable :
-  forall s, In s ot_assert_sites -> exists gen obj, template_conditions gen obj = Panic s.
+(** every one of the four assertions could fire *)
+Theorem v0_template_conditions_each_site_reachable :
+  forall s, In s ot_assert_sites -> exists gen obj, template_conditions_v0 gen obj = Panic s.
 Proof.
   intros s Hs. exists 0%Z. cbn in Hs.
   pose (mk := fun fields => [("status", JObj [("conditions", JArr [JObj fields])])]).
@@ -273,6 +286,37 @@ Proof.
     vm_compute. reflexivity.
 Qed.
 
+Lemma copy_one_repairs_v0 objgen kvs : copy_one objgen kvs = repaired (copy_one_v0 objgen kvs).
+Proof.
+  unfold copy_one, copy_one_v0.
+  destruct (as_int64 (nested1 kvs "observedGeneration")) as [|z|]; try reflexivity;
+  (match goal with |- context [if ?c then _ else _] => destruct c end; [reflexivity|]);
+  unfold entry_strings, assert_string; cbn [forallb];
+  destruct (jget "type" kvs) as [[| | | |? | |]|]; cbn; try reflexivity;
+  destruct (jget "status" kvs) as [[| | | |? | |]|]; cbn; try reflexivity;
+  destruct (jget "reason" kvs) as [[| | | |? | |]|]; cbn; try reflexivity;
+  destruct (jget "message" kvs) as [[| | | |? | |]|]; cbn; reflexivity.
+Qed.
+
+Lemma copy_conditions_repairs one1 one2 :
+  (forall g kvs, one1 g kvs = repaired (one2 g kvs)) ->
+  forall objgen conds acc, copy_conditions_with one1 objgen conds acc = repaired (copy_conditions_with one2 objgen conds acc).
+Proof.
+  intros H objgen conds. induction conds as [|c rest IH]; intros acc; cbn; [reflexivity|].
+  destruct c; try reflexivity. rewrite H. destruct (one2 objgen l) as [r| |s]; cbn; [apply IH|reflexivity|reflexivity].
+Qed.
+
+Theorem template_conditions_repairs_v0 : forall gen obj,
+  template_conditions gen obj = repaired (template_conditions_v0 gen obj).
+Proof.
+  intros gen obj. unfold template_conditions, template_conditions_v0, template_conditions_with.
+  assert (G : forall b, conditions_of_with copy_one b obj = repaired (conditions_of_with copy_one_v0 b obj)).
+  { intros b. unfold conditions_of_with. destruct (negb b); [reflexivity|].
+    destruct (nested2 obj "status" "conditions") as [|v|]; try reflexivity.
+    destruct v; try reflexivity. apply copy_conditions_repairs. apply copy_one_repairs_v0. }
+  destruct (as_int64 (nested2 obj "status" "observedGeneration")); [apply G|apply G|reflexivity].
+Qed.
+
 Lemma relaxed_jsonpath_no_panic key_empty submatches s : relaxed_jsonpath key_empty submatches <> Panic s.
 Proof.
   unfold relaxed_jsonpath. destruct key_empty; [discriminate|]. destruct submatches as [sm|]; [|discriminate].
@@ -280,73 +324,57 @@ Proof.
   destruct (negb (String.eqb b "")); discriminate.
 Qed.
 
-Theorem template_source_partial : forall key_empty submatches executed destination set_ok s,
-  copy_source_item key_empty submatches executed destination set_ok = Panic s ->
-  s = S_ot_destination0 /\ destination = "".
+Lemma vslice_step_ok (value : json) : exists v,
+  (match value with
+   | JArr vs => if Nat.eqb (List.length vs) 1 then index_or S_ot_vslice0 vs 0 else Ok value
+   | _ => Ok value end) = Ok v.
+Proof. destruct value; eauto. destruct l as [|x [|y t]]; cbn; eauto. Qed.
+
+Lemma copy_source_item_at_panic : forall lc site key_empty submatches executed destination set_ok s,
+  copy_source_item_at lc site key_empty submatches executed destination set_ok = Panic s ->
+  s = site /\ destination = "" /\ lc = false.
 Proof.
-  intros key_empty submatches executed destination set_ok s H. unfold copy_source_item in H.
+  intros lc site key_empty submatches executed destination set_ok s H. unfold copy_source_item_at in H.
   destruct (relaxed_jsonpath key_empty submatches) as [r| |s'] eqn:E; cbn in H; try discriminate.
   2:{ now apply relaxed_jsonpath_no_panic in E. }
   destruct executed as [value|]; [|discriminate].
-  assert (V : exists v, (match value with
-            | JArr vs => if Nat.eqb (List.length vs) 1 then index_or S_ot_vslice0 vs 0 else Ok value
-            | _ => Ok value end) = Ok v).
-  { destruct value; eauto. destruct l as [|x [|y t]]; cbn; eauto. }
-  destruct V as [v Hv]. rewrite Hv in H. cbn in H.
-  destruct destination as [|c d]; [injection H as <-; split; reflexivity|].
-  destruct (negb (Ascii.eqb c ".")); [discriminate|]. destruct set_ok; discriminate.
+  destruct (vslice_step_ok value) as [v Hv]. rewrite Hv in H. cbn in H.
+  destruct destination as [|c d].
+  - destruct lc; cbn in H; [discriminate|]. injection H as <-. repeat split.
+  - rewrite andb_false_r in H. cbn in H. destruct (negb (Ascii.eqb c ".")); [discriminate|]. destruct set_ok; discriminate.
 Qed.
 
-(** F-C19d: `destination: ""` satisfies the CRD schema (type string, required, no minLength) *)
-Theorem template_source_refuted :
-  exists executed, copy_source_item false (Some ["{.data.k}"; ".data.k"; ""]) (Some executed) "" true = Panic S_ot_destination0.
+(** C19 for the source items of the ObjectTemplate controller, at full strength, for every behaviour of
+    the regular expression, jsonpath and SetNestedField *)
+Theorem template_source_total : forall key_empty submatches executed destination set_ok s,
+  copy_source_item key_empty submatches executed destination set_ok <> Panic s.
+Proof.
+  intros key_empty submatches executed destination set_ok s H.
+  apply copy_source_item_at_panic in H as (_ & _ & H). discriminate.
+Qed.
+
+(** F-C19d (fixed by a818a7e): `destination: ""` satisfies the CRD schema (type string, required, no minLength) *)
+Theorem v0_template_source_refuted :
+  exists executed, copy_source_item_v0 false (Some ["{.data.k}"; ".data.k"; ""]) (Some executed) "" true = Panic S_v0_ot_destination0.
 Proof. exists (JStr "v"). vm_compute. reflexivity. Qed.
 
-Theorem template_source_fixed_total : forall key_empty submatches executed destination set_ok s,
-  copy_source_item_fixed key_empty submatches executed destination set_ok <> Panic s.
+Theorem template_source_repairs_v0 : forall key_empty submatches executed destination set_ok,
+  copy_source_item key_empty submatches executed destination set_ok
+  = repaired (copy_source_item_v0 key_empty submatches executed destination set_ok).
 Proof.
-  intros key_empty submatches executed destination set_ok s H. unfold copy_source_item_fixed in H.
-  destruct destination as [|c d].
-  - destruct (relaxed_jsonpath key_empty submatches) as [r| |s'] eqn:E; cbn in H; try discriminate.
-    + destruct executed; discriminate.
-    + now apply relaxed_jsonpath_no_panic in E.
-  - apply template_source_partial in H as [_ H]. discriminate.
+  intros key_empty submatches executed destination set_ok. unfold copy_source_item, copy_source_item_v0, copy_source_item_at.
+  destruct (relaxed_jsonpath key_empty submatches) as [r| |s] eqn:E; cbn; try reflexivity.
+  2:{ now apply relaxed_jsonpath_no_panic in E. }
+  destruct executed as [value|]; [|reflexivity].
+  destruct (vslice_step_ok value) as [v ->]. cbn.
+  destruct destination as [|c d]; cbn; [reflexivity|].
+  destruct (negb (Ascii.eqb c ".")); [reflexivity|]. destruct set_ok; reflexivity.
 Qed.
-
-Theorem template_source_fixed_agrees : forall key_empty submatches executed destination set_ok,
-  destination <> "" ->
-  copy_source_item_fixed key_empty submatches executed destination set_ok
-  = copy_source_item key_empty submatches executed destination set_ok.
-Proof. intros. unfold copy_source_item_fixed. destruct destination; [congruence|reflexivity]. Qed.
 
 (* ------------------------------------------------------------------ (4) FromOCI *)
 
-Theorem oci_partial : forall evs files s,
-  from_oci evs files = Panic s -> s = S_imp_hdr /\ no_tar_error evs = false.
-Proof.
-  induction evs as [|e rest IH]; intros files s H; cbn in H.
-  - destruct (N.eqb files 0); discriminate.
-  - destruct e as [p body_ok|].
-    + cbn [no_tar_error forallb]. fold (no_tar_error rest).
-      destruct p as [[|]| |]; destruct body_ok; try discriminate;
-        try (apply IH in H as [-> ->]; split; reflexivity);
-        try (injection H as <-; split; reflexivity).
-    + injection H as <-. split; reflexivity.
-Qed.
-
-Theorem oci_total_without_read_error : forall evs files,
-  no_tar_error evs = true -> forall s, from_oci evs files <> Panic s.
-Proof. intros evs files Hn s H. apply oci_partial in H as [_ H]. congruence. Qed.
-
-(** F-C19b: the stream breaks off inside the body of an entry FromOCI skips (a dot file, or a file
-    outside package/), or the reader fails otherwise between entries *)
-Theorem oci_refuted :
-  from_oci [THeader (PUnder false) true; THeader (PUnder true) false] 0 = Panic S_imp_hdr
-  /\ from_oci [THeader POutside false] 0 = Panic S_imp_hdr
-  /\ from_oci [THeader (PUnder false) true; TError] 0 = Panic S_imp_hdr.
-Proof. vm_compute. repeat split; reflexivity. Qed.
-
-Theorem oci_fixed_total : forall evs files s, from_oci_fixed evs files <> Panic s.
+(** C19 for the OCI import, at full strength over all event sequences *)
+Theorem oci_total : forall evs files s, from_oci evs files <> Panic s.
 Proof.
   induction evs as [|e rest IH]; intros files s; cbn.
   - destruct (N.eqb files 0); discriminate.
@@ -354,7 +382,24 @@ Proof.
     destruct p as [[|]| |]; destruct body_ok; try discriminate; apply IH.
 Qed.
 
-Theorem oci_fixed_agrees : forall evs files, no_tar_error evs = true -> from_oci_fixed evs files = from_oci evs files.
+(** F-C19b (fixed by e1805ac): the stream breaks off inside the body of an entry FromOCI skips (a dot file,
+    or a file outside package/), or the reader fails otherwise between entries *)
+Theorem v0_oci_refuted :
+  from_oci_v0 [THeader (PUnder false) true; THeader (PUnder true) false] 0 = Panic S_v0_imp_hdr
+  /\ from_oci_v0 [THeader POutside false] 0 = Panic S_v0_imp_hdr
+  /\ from_oci_v0 [THeader (PUnder false) true; TError] 0 = Panic S_v0_imp_hdr.
+Proof. vm_compute. repeat split; reflexivity. Qed.
+
+Theorem oci_repairs_v0 : forall evs files, from_oci evs files = repaired (from_oci_v0 evs files).
+Proof.
+  induction evs as [|e rest IH]; intros files; cbn.
+  - destruct (N.eqb files 0); reflexivity.
+  - destruct e as [p body_ok|]; [|reflexivity].
+    destruct p as [[|]| |]; destruct body_ok; try reflexivity; apply IH.
+Qed.
+
+(** the repair changed nothing for streams all of whose reads succeed *)
+Theorem oci_agrees_with_v0 : forall evs files, no_tar_error evs = true -> from_oci evs files = from_oci_v0 evs files.
 Proof.
   induction evs as [|e rest IH]; intros files H; cbn; [reflexivity|].
   destruct e as [p body_ok|]; [|discriminate]. cbn in H.
@@ -363,25 +408,29 @@ Qed.
 
 (* ------------------------------------------------------------------ (4b) x-kubernetes-validations *)
 
-(** F-C19f: a structurally valid config schema with at least one x-kubernetes-validations rule *)
-Theorem xvalidations_refuted : compile_xvalidations false false false false 1 false false = Panic S_mv_nil_envset.
-Proof. reflexivity. Qed.
-
-Theorem xvalidations_partial : forall se cn te tn rules dn base s,
-  compile_xvalidations se cn te tn rules dn base = Panic s ->
-  s = S_mv_nil_envset /\ base = false /\ rules <> 0 /\ se = false.
+(** C19 for the compilation of x-kubernetes-validations, for every behaviour of the type-information and
+    compilation library *)
+Theorem xvalidations_total : forall se cn te tn rules dn s, compile_xvalidations se cn te tn rules dn <> Panic s.
 Proof.
-  intros se cn te tn rules dn base s H. unfold compile_xvalidations in H.
-  destruct se; [discriminate|]. destruct cn; [discriminate|]. cbn in H.
-  destruct te; [discriminate|]. destruct tn; [discriminate|]. cbn in H.
-  destruct rules as [|n]; [discriminate|]. cbn in H.
-  destruct dn; [discriminate|]. destruct base; [discriminate|]. injection H as <-.
-  repeat split; congruence.
+  intros se cn te tn rules dn s. unfold compile_xvalidations, compile_xvalidations_with.
+  destruct (se || cn); [discriminate|]. destruct (te || tn); [discriminate|].
+  destruct (Nat.eqb rules 0); [discriminate|]. destruct dn; discriminate.
 Qed.
 
-Theorem xvalidations_total_with_env : forall se cn te tn rules dn s,
-  compile_xvalidations se cn te tn rules dn true <> Panic s.
-Proof. intros se cn te tn rules dn s H. apply xvalidations_partial in H as (_ & H & _). discriminate. Qed.
+(** F-C19f (found by the fuzz stage, fixed by 35e301a): a structurally valid config schema with at least one rule *)
+Theorem v0_xvalidations_refuted : compile_xvalidations_v0 false false false false 1 false = Panic S_v0_mv_nil_envset.
+Proof. reflexivity. Qed.
+
+(** the repair (a real environment instead of nil) makes the compilation succeed where it panicked and
+    changes nothing else *)
+Theorem xvalidations_agrees_with_v0 : forall se cn te tn rules dn,
+  compile_xvalidations_v0 se cn te tn rules dn = Panic S_v0_mv_nil_envset
+  \/ compile_xvalidations se cn te tn rules dn = compile_xvalidations_v0 se cn te tn rules dn.
+Proof.
+  intros se cn te tn rules dn. unfold compile_xvalidations, compile_xvalidations_v0, compile_xvalidations_with.
+  destruct (se || cn); [now right|]. destruct (te || tn); [now right|].
+  destruct (Nat.eqb rules 0); [now right|]. destruct dn; [now right|now left].
+Qed.
 
 (* ------------------------------------------------------------------ (5) annotation owner strategy *)
 
@@ -429,13 +478,6 @@ Example validated_objects_exist :
   /\ forallb (fun o => condmap_ok (o_condmap o)) objs = true
   /\ render_and_collect ["deploy"] objs = Ok 1%N.
 Proof. vm_compute. repeat split; reflexivity. Qed.
-
-Example wellformed_templated_exists :
-  let obj := [("metadata", JObj [("generation", JInt 1)]);
-              ("status", JObj [("conditions", JArr [JObj [("type", JStr "Ready"); ("status", JStr "True");
-                 ("reason", JStr "Ok"); ("message", JStr "all good"); ("observedGeneration", JInt 1)]])])] in
-  conditions_wellformed obj = true /\ template_conditions 1 obj = Ok ["Ready"].
-Proof. vm_compute. split; reflexivity. Qed.
 
 Example clean_stream_exists :
   no_tar_error [THeader (PUnder false) true; THeader (PUnder true) true] = true
